@@ -58,6 +58,9 @@ func (fc *fctx) instr(ins ssa.Instruction) {
 		fc.vals[x] = []*Val{mkVal(a, "Int", x.Type())}
 		if !tr.leaks(x) {
 			tr.protected = append(tr.protected, a)
+			if st, _ := structOf(et); st != nil {
+				tr.protectedTypes[a] = et
+			}
 		}
 	case *ssa.Store:
 		fc.derefCheck(x.Addr, x.Pos())
